@@ -39,6 +39,12 @@ var importMap = map[string]string{
 
 func q(s string) string { return `"` + s + `"` }
 
+// goFunc is what a go statement is rewritten to: goroutines started by the library itself are its own
+// business (a cleanup goroutine, an owner goroutine serving requests) -- they are background threads,
+// and one of them parked for ever is not a call that blocks for ever. The conformance programs keep
+// plain threads (there a goroutine that never finishes is a deadlock of the program).
+var goFunc = "vrt.GoLib"
+
 type listPkg struct {
 	ImportPath string
 	Dir        string
@@ -175,10 +181,10 @@ func (r *fileRewriter) rewrite() {
 				r.replace(a.Pos(), a.End(), fmt.Sprintf("_vga%d", i))
 			}
 			if len(pre) == 0 {
-				r.replace(x.Go, x.Call.Pos(), "vrt.Go(func() { ")
+				r.replace(x.Go, x.Call.Pos(), goFunc+"(func() { ")
 				r.insert(x.End(), " })")
 			} else {
-				r.replace(x.Go, x.Call.Pos(), "{ "+strings.Join(pre, "; ")+"; vrt.Go(func() { ")
+				r.replace(x.Go, x.Call.Pos(), "{ "+strings.Join(pre, "; ")+"; "+goFunc+"(func() { ")
 				r.insert(x.End(), " }) }")
 			}
 			r.skipGoArgs(x)
@@ -630,6 +636,7 @@ func main() {
 		}
 	}
 	if *mode == "full" && *extra != "" {
+		goFunc = "vrt.Go"
 		for _, ex := range strings.Split(*extra, ",") {
 			dir, name, ok := strings.Cut(ex, "=")
 			if !ok {
